@@ -2,7 +2,7 @@
    Proofs/C03.v or Proofs/C03_w.v; Print Assumptions beneath each. *)
 From Coq Require Import List NArith ZArith Bool.
 Import ListNotations.
-Require Import Verif.Lib.Wire Verif.Gen.Facts_C03 Verif.Model.C03 Verif.Proofs.C03 Verif.Proofs.C03_w Verif.Proofs.C03_acc.
+Require Import Verif.Lib.Wire Verif.Gen.Facts_C03 Verif.Model.C03 Verif.Proofs.C03 Verif.Proofs.C03_w Verif.Proofs.C03_acc Verif.Proofs.C03_ph Verif.Proofs.C03_ov.
 
 (* The outcome of the lookup is one the declarative specification allows: the body that runs
    belongs to a qualifying candidate (name, classifier, interfaces in the two resolution
@@ -247,3 +247,84 @@ Print Assumptions C03_notted_sibling_distinct_keys.
 Theorem C03_phash_of_final_pred : phash_of_final_pred = true.
 Proof. exact phash_of_final_pred_ok. Qed.
 Print Assumptions C03_phash_of_final_pred.
+
+(* ---- the phash (finding C03-phash-collision characterised) *)
+Theorem C03_phash_equal_iff : forall names kw1 kw2 m1 m2,
+  make names kw1 = Some m1 -> make names kw2 = Some m2 ->
+  (m_phash m1 = m_phash m2 <->
+   concat (map pred_phash (m_preds m1)) = concat (map pred_phash (m_preds m2))).
+Proof. exact phash_equal_iff. Qed.
+Print Assumptions C03_phash_equal_iff.
+
+Theorem C03_phash_collision_refuted :
+  exists v1 v2,
+    col_regs = [v1; v2] /\ Forall (made_by pred_names) col_regs
+    /\ r_phash v1 = r_phash v2
+    /\ map pred_phash (r_preds v1) <> map pred_phash (r_preds v2)
+    /\ r_order v1 <> r_order v2
+    /\ qualifies col_rq v1 = true /\ qualifies col_rq v2 = false
+    /\ call_view (register_all accept_order_default col_regs) view_classifier col_rq = NotFoundPme
+    /\ map r_tag (spec_winners view_classifier col_regs col_rq) = [1%N].
+Proof. exact phash_collision_refuted. Qed.
+Print Assumptions C03_phash_collision_refuted.
+
+(* predicates with an empty phash (pseudo-predicates) are invisible to the digest *)
+Theorem C03_empty_phash_invisible : forall l1 l2 i,
+  concat (map pred_phash (l1 ++ PThird i [] :: l2)) = concat (map pred_phash (l1 ++ l2)).
+Proof. exact empty_phash_invisible. Qed.
+Print Assumptions C03_empty_phash_invisible.
+
+Theorem C03_empty_phash_observation :
+  map r_phash eph_regs = [default_phash; pfx_custom ++ dec 5; default_phash]
+  /\ map n_preds eph_regs = [1; 1; 0]%nat
+  /\ call_view (register_all accept_order_default eph_regs) view_classifier eph_rq = Ran 4
+  /\ map r_tag (spec_winners view_classifier eph_regs eph_rq) = [1%N].
+Proof. exact empty_phash_observation. Qed.
+Print Assumptions C03_empty_phash_observation.
+
+(* stability of ties *)
+Theorem C03_isort_stable : forall k l,
+  filter (same_order k) (isort entry_leb l) = filter (same_order k) l.
+Proof. exact isort_stable. Qed.
+Print Assumptions C03_isort_stable.
+
+Theorem C03_multiview_ties_in_registration_order : forall (adds : list (reg * Z * text)) k,
+  NoDup (map (fun a => snd a) adds) ->
+  filter (same_order k) (mv_views (fold_left mv_add_args (map plain_add adds) mv_empty))
+  = filter (same_order k) (map add_entry adds).
+Proof. exact multiview_ties_in_registration_order. Qed.
+Print Assumptions C03_multiview_ties_in_registration_order.
+
+(* ---- overriding declarations *)
+Theorem C03_register_all_inv_live : forall ao regs,
+  no_accept regs -> key_order regs -> inv (live_regs regs) (register_all ao regs).
+Proof. exact register_all_inv_live. Qed.
+Print Assumptions C03_register_all_inv_live.
+
+Theorem C03_lookup_winner_overrides_partial : forall ao regs cls rq,
+  Forall reg_wf regs -> key_faithful regs -> key_order regs -> no_accept regs ->
+  NoDup (q_req_sro rq) -> NoDup (q_ctx_sro rq) -> order_respects (live_regs regs) ->
+  spec_ok cls regs rq (call_view (register_all ao regs) cls rq) = true.
+Proof. exact lookup_winner_overrides. Qed.
+Print Assumptions C03_lookup_winner_overrides_partial.
+
+(* ---- the full-strength lookup theorem for the code as it is, accept= included (finding
+   C03-accept-first characterised exactly): distinct (slot, phash) keys; per slot in specificity
+   order; inside a slot the acceptable media subsets by non-increasing quality, each by order,
+   then the plain views by order (strictly_before / media_before in Proofs/C03_med.v) *)
+Require Import Verif.Proofs.C03_med.
+Theorem C03_register_all_inv2 : forall ao regs,
+  NoDup (map key regs) -> inv2 regs (register_all ao regs).
+Proof. exact register_all_inv2. Qed.
+Print Assumptions C03_register_all_inv2.
+
+Theorem C03_lookup_winner_media : forall ao regs cls rq,
+  NoDup (map key regs) -> Forall accept_wf regs ->
+  NoDup (q_req_sro rq) -> NoDup (q_ctx_sro rq) ->
+  match call_view (register_all ao regs) cls rq with
+  | Ran t => exists x, In x regs /\ r_tag x = t /\ candidate cls rq x = true
+                       /\ forall w, In w regs -> candidate cls rq w = true -> strictly_before rq w x = false
+  | _ => forall w, In w regs -> candidate cls rq w = false
+  end.
+Proof. exact lookup_winner_media. Qed.
+Print Assumptions C03_lookup_winner_media.
